@@ -86,11 +86,11 @@ type L1Opts struct {
 
 // L1Gen incrementally generates a consistent L1 history and its reference
 type L1Gen struct {
-	G       *rand.Rand
-	O       L1Opts
-	Ref     *RefL1
-	num     uint64
-	started bool
+	G        *rand.Rand
+	O        L1Opts
+	Ref      *RefL1
+	num      uint64
+	started  bool
 	initDone bool
 	usedExit map[common.Hash]bool
 }
